@@ -15,7 +15,7 @@
   all public views of a set agree (`c01_views_agree`, `c01_ns_lookup`, `c01_parent_iff_member`, `c01_keys_unique`); a
   single-element operation that raises leaves elements and sets untouched (`c01_atomic_single`).
 -/
-import Basyx.Lemmas.NsSlice
+import Basyx.Lemmas.NsRename
 namespace Basyx.Ns
 
 theorem c01_inv_init : Inv init := by
@@ -233,7 +233,7 @@ theorem c01_order_perm {s : St} (hI : Inv s) {g : Nat} {S : NSet} {o : List Nat}
 
 /-! ### atomicity of single-element operations -/
 
-/-- single-element insertion, replacement, removal (rename: see `c01_atomic_rename`) -/
+/-- single-element insertion, replacement, removal (rename: `c01_atomic_rename` below) -/
 def isSingle : Op → Bool
   | .add .. | .insert .. | .append .. | .nsAdd .. | .setItem .. | .remove .. | .removeKey .. | .discard .. | .pop ..
   | .popAt .. | .delItem .. | .nsRemove .. => true
@@ -283,6 +283,15 @@ theorem c01_atomic_single {s : St} (hI : Inv s) (op : Op) (hop : isSingle op = t
   | nsRemove n a k => exact of_eq ((nsRemove_inv hI n a k).2 hr)
   | _ => simp [isSingle] at hop
 
+/-- **A rename (id_short, Qualifier.type, Extension.name) that does not succeed leaves the state exactly as it was.**
+    Side condition `hH`: the collection holding a Qualifier / Extension carries no SubmodelElementList hooks — true of every
+    state the constructors can build (`nsLayout` installs hooks on the referable `_value` set only), but not carried as part
+    of `Inv`; for Referables nothing is assumed (the setter itself refuses list children with AASd-120). -/
+theorem c01_atomic_rename {s : St} (hI : Inv s) (e : Nat) (nk : Option String)
+    (hH : ∀ (g : Nat) (S : NSet) (k : Key), s.sets[g]? = some S → (k, e) ∈ S.backend → S.attr ≠ .ref → S.hooks = none)
+    (hr : (step s (.rename e nk)).2 ≠ .ok) : (step s (.rename e nk)).1 = s :=
+  rename_atomic hI e nk hH hr
+
 /-! ### non-vacuity: the hypotheses are satisfiable and the operations do something -/
 
 /-- an Operation whose three variable sets share one scope, with colliding, case-differing and `None` idShorts -/
@@ -301,6 +310,7 @@ example : (step (run init (demoOps.take 7)) (.add 0 3 3)).2 = .raise (.aascv 117
 example : (run init demoOps).sets.map (fun S => vals S) = [[], [], [0], [1], [2]] := by decide
 example : (run init demoOps).elems.map (fun el => el.parent) = [some 0, some 0, some 0, none, none] := by decide
 example : Inv (run init demoOps) := c01_inv_reachable demoOps
+example : (step (run init (demoOps.take 8)) (.rename 2 (some "abc"))) = (run init (demoOps.take 8), .raise (.aascv 22)) := by decide
 
 /-- a SubmodelElementList: generated idShorts, slice assignment that grows the list, rollback of a failing one -/
 def demoList : List Op :=
